@@ -75,6 +75,15 @@ class CallMixin:
                 import re as _re
                 cre = compile_re(pat, _re.IGNORECASE if fl else 0)
                 return VBool(z3.InRe(subj.t, cre.language('fullmatch')))
+            if nm == 'rx_matches':
+                name = ast.literal_eval(node.args[0])
+                a = self.res(self.ev(node.args[1]))
+                return VBool(z3.Function(f'rx_{name}_matches', z3.StringSort(), z3.BoolSort())(a.t))
+            if nm == 'rx_group':
+                name = ast.literal_eval(node.args[0])
+                gi = ast.literal_eval(node.args[1])
+                a = self.res(self.ev(node.args[2]))
+                return VStr(z3.Function(f'rx_{name}_g{gi}', z3.StringSort(), z3.StringSort())(a.t))
             if nm == 'litval':
                 a = self.res(self.ev(node.args[0]))
                 return VInt(z3.Function('litval', z3.StringSort(), z3.IntSort())(a.t))
